@@ -71,7 +71,22 @@ fn catalogue(tree: &Tree) -> Vec<Derive> {
 
 pub fn generate_histories(seed: u64, n: usize, tree: &Tree) -> Vec<Vec<Derive>> {
     let cat = catalogue(tree);
-    let extras = ["", ", response_derives = \"Debug\"", ", variables_derives = \"Debug, Clone\"", ", deprecated = \"allow\"", ", skip_serializing_none"];
+    // every attribute the derive understands, so that anything the proc-macro crate remembers
+    // from one derive shows in a later derive with other attributes
+    let extras = [
+        "",
+        ", response_derives = \"Debug\"",
+        ", response_derives = \"Debug, PartialEq, Clone\"",
+        ", variables_derives = \"Debug, Clone\"",
+        ", deprecated = \"allow\"",
+        ", deprecated = \"deny\"",
+        ", skip_serializing_none",
+        ", normalization = \"rust\"",
+        ", fragments_other_variant = true",
+        ", custom_scalars_module = \"crate::scalars\"",
+        ", extern_enums(\"Color\", \"DistanceUnit\")",
+        ", normalization = \"rust\", response_derives = \"Debug\", skip_serializing_none",
+    ];
     let mut out = vec![];
     for i in 0..n {
         let mut rng = Rng::new(simcore::subseed(seed, "C08/rustc-stage", i as u64));
@@ -79,7 +94,7 @@ pub fn generate_histories(seed: u64, n: usize, tree: &Tree) -> Vec<Vec<Derive>> 
         let mut h = vec![];
         for _ in 0..k {
             let mut d = rng.pick(&cat).clone();
-            if rng.chance(1, 4) {
+            if rng.chance(1, 2) {
                 d.extra = rng.pick(&extras).to_string();
             }
             if rng.chance(1, 4) {
@@ -229,12 +244,20 @@ pub fn run(histories: &[Vec<Derive>], work: &Path, repo: &Path, target: &Path) -
                 if !ranges.contains_key(&crate_name) || v["message"]["level"] != "error" {
                     continue;
                 }
+                finished.entry(crate_name.clone()).or_insert(false); // rustc ran on this crate
                 let msg = &v["message"];
                 let line_no = msg["spans"].as_array().and_then(|s| s.iter().find(|sp| sp["is_primary"] == true).or(s.first())).and_then(|sp| sp["line_start"].as_u64());
                 let Some(line_no) = line_no else { continue }; // "aborting due to…" summary lines
                 let idx = ranges[&crate_name].iter().position(|(a, b)| (line_no as usize) >= *a && (line_no as usize) <= *b);
                 let Some(idx) = idx else { continue };
                 let mut text = msg["message"].as_str().unwrap_or("").to_string();
+                // Only what the derive itself reports is compared: a panic of the macro, or the
+                // compile_error! it emits for a generation error. Errors rustc finds later in the
+                // generated code (missing scalar types, name clashes) are worded depending on the
+                // rest of the crate; for those derives the expanded code itself is compared below.
+                if !(text.contains("derive panicked") || text.contains("Failed to generate GraphQLQuery impl")) {
+                    continue;
+                }
                 // rustc's notes and suggestions ("a similar name exists in module …") depend on the
                 // rest of the crate and are not part of what the derive produced; only a derive
                 // panic carries its text in a child ("message: …")
